@@ -4,16 +4,16 @@
 set -e
 N=$1; shift
 cd /verif
-git merge --no-edit -q build-$N || { echo "VERIF MERGE CONFLICT"; exit 1; }
+git merge --no-edit -q build${R:-}-$N || { echo "VERIF MERGE CONFLICT"; exit 1; }
 cd /repo
-for c in $(git log --format=%h --reverse main..fix-$N); do
+for c in $(git log --format=%h --reverse main..fix${R:-}-$N); do
   subj=$(git log -1 --format=%s $c)
   if git log --format=%s 76596b2..main | grep -qxF "$subj"; then echo "skip (already on main): $subj"; continue; fi
   git cherry-pick $c >/dev/null 2>&1 || { echo "REPO CHERRY-PICK CONFLICT at $c: $subj"; git status --short | head; exit 1; }
   echo "picked: $subj"
 done
 cd /verif
-./remap_fixed.py fix-$N | grep -v "^remapped" || true
+./remap_fixed.py fix${R:-}-$N | grep -v "^remapped" || true
 python3 - "$@" <<'PY'
 import json,sys
 p='/verif/meta/_unclaimed.json'; d=json.load(open(p))
